@@ -40,6 +40,7 @@ pub enum Entry {
     RlStrict,
     RlSmall,
     InnerPastEnd,
+    PropLenPastEnd,
 }
 
 pub const ALL_ENTRIES: &[Entry] = &[
@@ -74,6 +75,7 @@ pub const ALL_ENTRIES: &[Entry] = &[
     Entry::RlStrict,
     Entry::RlSmall,
     Entry::InnerPastEnd,
+    Entry::PropLenPastEnd,
 ];
 
 impl Entry {
@@ -110,6 +112,7 @@ impl Entry {
             Entry::RlStrict => "rl-strict",
             Entry::RlSmall => "rl-small",
             Entry::InnerPastEnd => "inner-past-end",
+            Entry::PropLenPastEnd => "proplen-past-end",
         }
     }
 }
@@ -522,8 +525,13 @@ pub fn sites(w: &WPacket) -> Vec<Site> {
         }
     }
     if let Some(ps) = main_props(w) {
-        v.push(Site { entry: Entry::PropUnknown, idx: 0 });
-        v.push(Site { entry: Entry::PropForeign, idx: 0 });
+        // first / last / middle position of the list
+        let npos = if ps.items.is_empty() { 1 } else if ps.items.len() == 1 { 2 } else { 3 };
+        for pos in 0..npos {
+            v.push(Site { entry: Entry::PropUnknown, idx: 2 * pos });
+            v.push(Site { entry: Entry::PropForeign, idx: pos });
+        }
+        v.push(Site { entry: Entry::PropLenPastEnd, idx: 0 });
         v.push(Site { entry: Entry::VarInt5, idx: 1 });
         for i in single_valued(ps) {
             v.push(Site { entry: Entry::PropDup, idx: i });
@@ -539,8 +547,11 @@ pub fn sites(w: &WPacket) -> Vec<Site> {
         }
     }
     if let Some(ps) = will_props(w) {
-        v.push(Site { entry: Entry::PropUnknown, idx: 1 });
-        v.push(Site { entry: Entry::WillPropForeign, idx: 0 });
+        let npos = if ps.items.is_empty() { 1 } else if ps.items.len() == 1 { 2 } else { 3 };
+        for pos in 0..npos {
+            v.push(Site { entry: Entry::PropUnknown, idx: 2 * pos + 1 });
+            v.push(Site { entry: Entry::WillPropForeign, idx: pos });
+        }
         v.push(Site { entry: Entry::VarInt5, idx: 2 });
         for i in single_valued(ps) {
             v.push(Site { entry: Entry::PropDup, idx: 1000 + i });
@@ -835,9 +846,15 @@ pub fn apply_ex(orig: &WPacket, site: &Site, t: &mut Tape, out_w: &mut Option<WP
         }
         Entry::PropUnknown => {
             let id = [0x00u8, 0x04, 0x7F, 0x80, 0xFF, 0x2B, 0x0A, 0x14][t.pick(8)];
-            let ps = if site.idx == 1 { will_props_mut(&mut w) } else { main_props_mut(&mut w) }?;
-            ps.items.insert(0, Prop { id, val: PVal::Raw(vec![]) });
-            (all(ExpErr::InvalidPropertyId(id)), format!("unknown property id {:#04x} in the {} list", id, if site.idx == 1 { "will" } else { "packet" }))
+            let in_will = site.idx % 2 == 1;
+            let ps = if in_will { will_props_mut(&mut w) } else { main_props_mut(&mut w) }?;
+            let at = match site.idx / 2 {
+                0 => 0,
+                1 => ps.items.len(),
+                _ => ps.items.len() / 2,
+            };
+            ps.items.insert(at, Prop { id, val: PVal::Raw(vec![]) });
+            (all(ExpErr::InvalidPropertyId(id)), format!("unknown property id {:#04x} at position {} of the {} list", id, at, if in_will { "will" } else { "packet" }))
         }
         Entry::PropDup => {
             let in_will = site.idx >= 1000;
@@ -853,7 +870,12 @@ pub fn apply_ex(orig: &WPacket, site: &Site, t: &mut Tape, out_w: &mut Option<WP
             let id = cands[t.pick(cands.len())];
             let val = sample_value(id, t);
             let ps = if ctx == CTX_WILL { will_props_mut(&mut w) } else { main_props_mut(&mut w) }?;
-            ps.items.insert(0, Prop { id, val });
+            let at = match site.idx {
+                0 => 0,
+                1 => ps.items.len(),
+                _ => ps.items.len() / 2,
+            };
+            ps.items.insert(at, Prop { id, val });
             if ctx == CTX_WILL {
                 (all(ExpErr::InvalidWillProperty(id)), format!("property {:#04x} not allowed in will properties", id))
             } else {
@@ -932,7 +954,7 @@ pub fn apply_ex(orig: &WPacket, site: &Site, t: &mut Tape, out_w: &mut Option<WP
             }
             (all(ExpErr::EmptySubscription), "empty subscription list".into())
         }
-        Entry::RlStrict | Entry::RlSmall | Entry::InnerPastEnd if w.rl_delta != 0 || w.rl_width != 0 || !w.trailing.is_empty() => {
+        Entry::RlStrict | Entry::RlSmall | Entry::InnerPastEnd | Entry::PropLenPastEnd if w.rl_delta != 0 || w.rl_width != 0 || !w.trailing.is_empty() => {
             // the length entries assume a consistently framed base packet
             return None;
         }
@@ -983,6 +1005,26 @@ pub fn apply_ex(orig: &WPacket, site: &Site, t: &mut Tape, out_w: &mut Option<WP
             write_varint(&mut bytes, declared as u32, 0);
             bytes.extend_from_slice(&full[hl..]);
             return Some(Mutated { bytes, expect: Expect::All(ExpErr::InvalidRemainingLength), desc: format!("remaining length {} declared, mandatory fields need {}", declared, mandatory) });
+        }
+        Entry::PropLenPastEnd => {
+            // the property section is the last thing in the frame and declares 1..3 bytes more than
+            // the frame holds (an inner length running past the end of the frame)
+            let (bytes, spans) = serialize_spans(&w, true)?;
+            let actual = main_props(&w)?.body_len();
+            let pl = spans.iter().rev().find(|sp| sp.kind == Kind::PropLen && !sp.label.starts_with("will"))?;
+            if pl.end + actual != bytes.len() {
+                return None; // something follows the properties
+            }
+            let k = 1 + t.pick(3) as u32;
+            if varint_min_width(actual as u32) != varint_min_width(actual as u32 + k) {
+                return None;
+            }
+            main_props_mut(&mut w)?.declared = Some(actual as u32 + k);
+            let b = serialize(&w)?;
+            if b.len() != bytes.len() {
+                return None;
+            }
+            return Some(Mutated { bytes: b, expect: Expect::InnerPastEnd, desc: format!("property length declares {} bytes more than the frame holds", k) });
         }
         Entry::InnerPastEnd => {
             let (bytes, spans) = serialize_spans(&w, true)?;
